@@ -59,6 +59,9 @@ enum Kind {
     Race { probe_err: bool, stale_err: bool, n: usize },
     /// breaker Open and retry elapsed: k requests arrive while a stale entry completes with an error
     ProbeVsStale { k: usize },
+    /// breaker Open and retry elapsed, a flow rule rejects everything: k requests become probes
+    /// that are rolled back by their exit hook, racing with a stale completion (ok / error)
+    RejectedProbeVsStale { k: usize, stale_err: bool },
 }
 
 #[derive(Clone, Copy, Debug)]
@@ -168,6 +171,21 @@ fn scenario(s: Scn) {
                 stale.exit();
             }));
         }
+        Kind::RejectedProbeVsStale { k, stale_err } => {
+            let stale = enter().expect("closed breaker admits");
+            open_it();
+            expected_initial = St::Open;
+            sentinel_core::flow::load_rules(vec![Arc::new(sentinel_core::flow::Rule { resource: RES.into(), threshold: 0.0, ..Default::default() })]);
+            advance_ms(1_000);
+            events.lock().unwrap().clear();
+            spawn_requests(&mut hs, k, None);
+            hs.push(thread::spawn(move || {
+                if stale_err {
+                    fail(&stale);
+                }
+                stale.exit();
+            }));
+        }
         Kind::Race { probe_err, stale_err, n } => {
             let stale = enter().expect("closed breaker admits");
             open_it();
@@ -259,6 +277,16 @@ fn scenario(s: Scn) {
                 found("probe/more-than-one-probe-admitted", format!("{name}: {n_adm} admitted; events {ev:?}"));
             }
         }
+        Kind::RejectedProbeVsStale { .. } => {
+            if n_adm != 0 {
+                found("rejected-probe/admitted-although-another-rule-rejects", format!("{name}: {n_adm} admitted"));
+            }
+            // every probe phase must be left exactly once (path oracle above); the number of
+            // phases cannot exceed the number of requests
+            if n_half > adm.len() {
+                found("rejected-probe/more-probe-phases-than-requests", format!("{name}: events {ev:?}"));
+            }
+        }
         Kind::Race { probe_err, stale_err, .. } => {
             // requests are admitted either as a probe (one per Open->HalfOpen) or while Closed
             let closed_seen = ev.iter().any(|e| e.1 == St::Closed);
@@ -287,6 +315,10 @@ fn main() {
             scns.push(Scn { kind: Kind::Probe { k, arrived: true }, strategy });
             scns.push(Scn { kind: Kind::Probe { k, arrived: false }, strategy });
             scns.push(Scn { kind: Kind::ProbeVsStale { k }, strategy });
+            if strategy != 2 {
+                scns.push(Scn { kind: Kind::RejectedProbeVsStale { k, stale_err: false }, strategy });
+            }
+            scns.push(Scn { kind: Kind::RejectedProbeVsStale { k, stale_err: true }, strategy });
         }
         for probe_err in [false, true] {
             for stale_err in [false, true] {
